@@ -277,6 +277,8 @@ def run_check(pid, tier, seed):
                                                  agg['solver_queries'], agg['solver_time_s'], wall))
     for c, pc in per_check.items():
         print('   %-28s %s' % (c, pc))
+    for e in errs[:4]:
+        print('WORKER-ERROR: %s' % e[-600:])
     if vio_lines:
         for l in vio_lines:
             print(l)
